@@ -124,6 +124,8 @@ func (l lift) tmplJSON(shape []pField, tm []pTmpl) string {
 			continue
 		case "sub":
 			s = l.tmplJSON(subShapes[f.K], t.Xs)
+		case "or":
+			s = strconv.FormatUint(l.mask(f.K, t.X.V), 10)
 		case "set":
 			switch f.C {
 			case "one":
@@ -148,6 +150,65 @@ func (l lift) tmplJSON(shape []pField, tm []pTmpl) string {
 		parts = append(parts, strconv.Quote(fieldJSONName(shape, i))+":"+s)
 	}
 	return "{" + strings.Join(parts, ",") + "}"
+}
+
+// rules: the RewriterRules that go with a template (BitOr for "or" entries, nested rules for nested templates)
+func bitOrRule(kind string) any {
+	switch kind {
+	case "int":
+		return proto.BitOr[int]{}
+	case "i32", "s32":
+		return proto.BitOr[int32]{}
+	case "i64", "s64":
+		return proto.BitOr[int64]{}
+	case "uint":
+		return proto.BitOr[uint]{}
+	case "u32", "x32":
+		return proto.BitOr[uint32]{}
+	}
+	return proto.BitOr[uint64]{}
+}
+
+func tmplRules(shape []pField, tm []pTmpl) proto.RewriterRules {
+	rules := proto.RewriterRules{}
+	for i, f := range shape {
+		switch tm[i].T {
+		case "or":
+			rules[fieldJSONName(shape, i)] = bitOrRule(f.K)
+		case "sub":
+			if sub := tmplRules(subShapes[f.K], tm[i].Xs); len(sub) > 0 {
+				rules[fieldJSONName(shape, i)] = sub
+			}
+		}
+	}
+	return rules
+}
+
+func hasOr(tm []pTmpl) bool {
+	for _, t := range tm {
+		if t.T == "or" || (t.T == "sub" && hasOr(t.Xs)) {
+			return true
+		}
+	}
+	return false
+}
+
+func manualBitOr(l lift, pt proto.Type, f pField, n int, m int) (proto.Rewriter, error) {
+	fn := proto.FieldNumber(n)
+	mask := l.mask(f.K, m)
+	switch f.K {
+	case "int":
+		return proto.BitOrRewriter(pt, fn, int(mask))
+	case "i32", "s32":
+		return proto.BitOrRewriter(pt, fn, int32(mask))
+	case "i64", "s64":
+		return proto.BitOrRewriter(pt, fn, int64(mask))
+	case "uint":
+		return proto.BitOrRewriter(pt, fn, uint(mask))
+	case "u32", "x32":
+		return proto.BitOrRewriter(pt, fn, uint32(mask))
+	}
+	return proto.BitOrRewriter(pt, fn, mask)
 }
 
 // structTypeNamed is structTypeOf with `name=` in the protobuf tags (proto.TypeOf takes the
@@ -258,7 +319,11 @@ func c19Run(c *Ctx, k c19Case) {
 	case "template":
 		tmplBytes = []byte(l.tmplJSON(k.Shape, k.Tmpl))
 		tmplSnap = append([]byte(nil), tmplBytes...)
-		if p := protect(func() { rw, err = proto.ParseRewriteTemplate(proto.TypeOf(t), tmplBytes) }); p != "" {
+		var rules []proto.RewriterRules
+		if hasOr(k.Tmpl) {
+			rules = append(rules, tmplRules(k.Shape, k.Tmpl))
+		}
+		if p := protect(func() { rw, err = proto.ParseRewriteTemplate(proto.TypeOf(t), tmplBytes, rules...) }); p != "" {
 			fail("proto.ParseRewriteTemplate", "a Rewriter", p+" template="+string(tmplBytes), "")
 			return
 		}
@@ -274,9 +339,24 @@ func c19Run(c *Ctx, k c19Case) {
 			}
 		}
 		m := make(proto.MessageRewriter, max+1)
+		pt := proto.TypeOf(t)
 		for i, f := range k.Shape {
 			if k.Tmpl[i].T == "set" {
 				m[numOf(k.Shape, i)] = manualRewriter(l, f, numOf(k.Shape, i), k.Tmpl[i].X)
+			}
+			if k.Tmpl[i].T == "or" {
+				var ft proto.Type
+				for j := 0; j < pt.NumField(); j++ {
+					if int(pt.Field(j).Number) == numOf(k.Shape, i) {
+						ft = pt.Field(j).Type
+					}
+				}
+				r, rerr := manualBitOr(l, ft, f, numOf(k.Shape, i), k.Tmpl[i].X.V)
+				if rerr != nil {
+					fail("proto.BitOrRewriter", "a Rewriter", "error: "+rerr.Error(), "")
+					return
+				}
+				m[numOf(k.Shape, i)] = r
 			}
 		}
 		rw = m
@@ -301,6 +381,26 @@ func c19Run(c *Ctx, k c19Case) {
 	if msgMapTemplate(k.Shape, k.Tmpl) {
 		finding = "F-C19-4"
 	}
+	// F-C19-6: a bit-or rule combines the mask with the FIRST occurrence of the field and drops the later ones;
+	// exactly that dialect (the value the model computes with FixOrLast = FALSE) is tolerated
+	asIsOr := ""
+	if k.Input == "overridden" {
+		w := k.Want
+		w.Xs = append([]pVal(nil), w.Xs...)
+		for i, f := range k.Shape {
+			if k.Tmpl[i].T == "or" && f.C == "one" {
+				other := 0
+				if k.Val.Xs[i].V == 0 {
+					other = 1
+				}
+				w.Xs[i] = pVal{T: "s", V: other}
+				if m := k.Tmpl[i].X.V; m != 0 {
+					w.Xs[i].V = 100 + 10*other + m
+				}
+				asIsOr = treeString(l.treeOfAbstract(k.Shape, w))
+			}
+		}
+	}
 	// valid message
 	if serr := proto.Scan(out, func(proto.FieldNumber, proto.WireType, proto.RawValue) (bool, error) { return true, nil }); serr != nil {
 		fail("Rewriter.Rewrite", "a valid encoded message", "Scan: "+serr.Error()+" out="+hex.EncodeToString(out), finding)
@@ -313,6 +413,9 @@ func c19Run(c *Ctx, k c19Case) {
 		return
 	}
 	if got := treeString(treeOfGo(k.Shape, res.Elem())); got != want {
+		if asIsOr != "" && got == asIsOr {
+			finding = "F-C19-6"
+		}
 		fail("Unmarshal(Rewrite(in))", want, got+" out="+hex.EncodeToString(out)+" in="+hex.EncodeToString(in), finding)
 		return
 	}
@@ -320,6 +423,9 @@ func c19Run(c *Ctx, k c19Case) {
 	if tr, rerr := refDecode(k.Shape, out); rerr != nil {
 		fail("reference.Unmarshal(Rewrite(in))", want, "reference rejects: "+rerr.Error(), finding)
 	} else if treeString(tr) != want && !hasEmptyMap(k.Shape, k.Want) {
+		if asIsOr != "" && treeString(tr) == asIsOr {
+			finding = "F-C19-6"
+		}
 		fail("reference.Unmarshal(Rewrite(in))", want, treeString(tr), finding)
 	}
 	// untemplated fields carried over in order with identical values
@@ -493,6 +599,8 @@ func manualOK(shape []pField, tm []pTmpl, val pVal) bool {
 		switch tm[i].T {
 		case "sub":
 			return false
+		case "or":
+			any = true
 		case "set":
 			if isMsgKind(f.K) || f.C == "rep" || f.C == "map" {
 				return false
